@@ -129,6 +129,8 @@ type Sched struct {
 	Externals []External
 	// Monitor is called after every executed step once events are settled.
 	Monitor func(StepInfo) error
+	// StopAt, when > 0, makes Run return once that many steps have been executed in total.
+	StopAt int
 	// RecordEffects keeps the name of every effect point in EffectOps.
 	RecordEffects bool
 	EffectOps     []string
@@ -537,6 +539,9 @@ func (s *Sched) Run() error {
 		}
 		if s.Steps >= s.Budget {
 			return ErrBudget
+		}
+		if s.StopAt > 0 && s.Steps >= s.StopAt {
+			return nil
 		}
 		pick := 0
 		if s.Drawn && len(cands) > 1 {
